@@ -692,6 +692,12 @@ static unsigned char utf16_literal_to_utf8(const unsigned char * const input_poi
     /* get the first utf16 sequence */
     first_code = parse_hex4(first_sequence + 2);
 
+    /* parse_hex4 returns 0 for invalid hexadecimal digits as well as for "0000" */
+    if ((first_code == 0) && (strncmp((const char*)first_sequence + 2, "0000", 4) != 0))
+    {
+        goto fail;
+    }
+
     /* check that the code is valid */
     if (((first_code >= 0xDC00) && (first_code <= 0xDFFF)))
     {
